@@ -6,7 +6,9 @@ Writes lean/AdaptixModel/Generated/C11Sites.lean with
                    (positional ones as written, keyword ones as `name=expr`) in call order;
   * `facadeCaches` every dict used as a cache by a facade (`self._xxx_cache[...]` reads/writes, the
                    `_call_cache` creation, the process-wide `lru_cache` of normalize_type): file, holder,
-                   key expression.
+                   key expression; the attributes every `_calculate_derived` assigns (the per-retort state);
+                   where a recursion resolver (the holder of the recursion stubs) is created, and the statements
+                   of its `track_request` / `track_response` in order.
 The Lean obligation `sites_covered` (Props/C11.lean) states that both lists equal the modelled lists
 (`AdaptixModel/Retort/CacheSites.lean`): a new or changed site breaks the build instead of being ignored.
 Anything this scanner does not understand (a `cached_call` whose callee or arguments cannot be rendered,
@@ -24,6 +26,11 @@ def _q(s: str) -> str:
 
 def _src(node: ast.AST) -> str:
     return " ".join(ast.unparse(node).split())
+
+
+def _is_abstract(node: ast.FunctionDef) -> bool:
+    return any(isinstance(d, ast.Name) and d.id == "abstractmethod" or isinstance(d, ast.Attribute) and d.attr == "abstractmethod"
+               for d in node.decorator_list)
 
 
 class _Scan(ast.NodeVisitor):
@@ -50,6 +57,17 @@ class _Scan(ast.NodeVisitor):
 
     def visit_FunctionDef(self, node):
         self.scope.append(node.name)
+        if node.name == "_calculate_derived":
+            # the per-retort state: everything a retort (re)creates when it is built or cloned
+            attrs = [t.attr for n in ast.walk(node) if isinstance(n, (ast.Assign, ast.AnnAssign))
+                     for t in (n.targets if isinstance(n, ast.Assign) else [n.target])
+                     if isinstance(t, ast.Attribute) and isinstance(t.value, ast.Name) and t.value.id == "self"]
+            self.caches.append((self.rel, self._where(), "derived state: " + ", ".join(attrs)))
+        if node.name in ("track_request", "track_response") and len(self.scope) >= 2 and \
+                self.scope[-2].endswith("RecursionResolver") and not _is_abstract(node):
+            # life cycle of the recursion stubs, statement by statement
+            for st in node.body:
+                self.caches.append((self.rel, self._where(), _src(st)))
         self.generic_visit(node)
         self.scope.pop()
 
@@ -64,6 +82,10 @@ class _Scan(ast.NodeVisitor):
                 raise ValueError(f"{self.rel}:{node.lineno}: cached_call with star-arguments is outside the subset")
             args = [_src(a) for a in node.args[1:]] + [f"{k.arg}={_src(k.value)}" for k in node.keywords]
             self.sites.append((self.rel, self._where(), _src(node.args[0]), args))
+        if isinstance(f, ast.Attribute) and f.attr == "_create_recursion_resolver" or \
+                isinstance(f, ast.Name) and f.id.endswith("RecursionResolver"):
+            # where (how often) the holder of the recursion stubs is created
+            self.caches.append((self.rel, self._where(), "creates: " + _src(node)))
         if isinstance(f, ast.Name) and f.id == "lru_cache" or isinstance(f, ast.Attribute) and f.attr == "lru_cache":
             self.caches.append((self.rel, self._where(), "lru_cache(" + ", ".join(
                 [_src(a) for a in node.args] + [f"{k.arg}={_src(k.value)}" for k in node.keywords]) + ")"))
@@ -105,7 +127,8 @@ def scan(repo: Path):
     sites, caches = [], []
     for p in sorted(root.rglob("*.py")):
         text = p.read_text()
-        if "cache" not in text and "FuncWrapper" not in text:
+        if "cache" not in text and "FuncWrapper" not in text and "_calculate_derived" not in text and \
+                "RecursionResolver" not in text:
             continue
         sc = _Scan(str(p.relative_to(repo / "src")))
         sc.visit(ast.parse(text))
